@@ -184,6 +184,11 @@ func (w *World) afterClose() {
 
 // finishSeq decides non-triviality and writes a sample.
 func (x *X) finishSeq(w *World) {
+	if w.k.Store == "mem" && w.root == "" && x.sim.FS.N > 0 {
+		// (the harness itself does not go through the seam: every logged operation was made by the code under test)
+		e := x.sim.FS.Log[0]
+		x.viol([]string{"C16", "C14"}, "iso.memory-store-touches-disk", e.Op, fmt.Sprintf("a memory store without a root directory made %d filesystem operations, the first: %s %s", x.sim.FS.N, e.Op, e.Path))
+	}
 	need, _ := x.p.Extra["nontrivial"].([]any)
 	x.out.NonTrivial = len(need) == 0 && x.out.Requests > 3
 	for _, n := range need {
